@@ -1,5 +1,7 @@
 package main
 
+import "math"
+
 func init() { generators["C01"] = genC01 }
 
 // historyStep applies one random operation to a random member of the family.
@@ -18,6 +20,25 @@ func (g *Gen) historyStep() {
 	switch g.rng.Intn(20) {
 	case 0, 1:
 		cl := g.randomClause(s, 2)
+		if g.rng.Intn(3) == 0 {
+			// a sub clause that keeps every row (or the Null clause) next to one that drops rows: the
+			// intermediate result is then the receiver itself, not a private copy
+			leaf := g.simpleLeaf(s)
+			keep := Clause{K: "null"}
+			if ic := s.colsOfType("int"); len(ic) > 0 && g.rng.Intn(2) == 0 {
+				keep = Clause{K: "leaf", Col: toBS(ic[0]), CmpK: "str", Cmp: ">=", Arg: &Val{T: "int", I: math.MinInt64}}
+			}
+			switch g.rng.Intn(4) {
+			case 0:
+				cl = Clause{K: "and", Subs: []Clause{keep, leaf}}
+			case 1:
+				cl = Clause{K: "and", Subs: []Clause{keep, keep, leaf, g.simpleLeaf(s)}}
+			case 2:
+				cl = Clause{K: "or", Subs: []Clause{{K: "not", Subs: []Clause{keep}}, leaf}}
+			default:
+				cl = Clause{K: "and", Subs: []Clause{{K: "or", Subs: []Clause{keep}}, leaf}}
+			}
+		}
 		g.do(Step{Op: "Filter", Recv: f, Clause: &cl})
 	case 2, 3:
 		g.do(Step{Op: "Sort", Recv: f, Orders: g.sortOrders(s, 2)})
